@@ -497,7 +497,9 @@ func (in *Interp) convert(from, to types.Type, x Value) Value {
 	return Value{}
 }
 
-// byte slices are []Value of KInt W=8 cells; strings are ropes.
+// byte slices are []Value cells: a cell is a byte (KInt, W=8, concrete or symbolic) or an opaque chunk
+// (KOpaque *OpaqueBytes: an atom text or a constructor term) standing for a non-empty run of bytes;
+// strings are ropes with the corresponding segments.
 func (in *Interp) bytesToString(x Value) Value {
 	if x.R == nil {
 		return mkStr("")
@@ -505,18 +507,6 @@ func (in *Interp) bytesToString(x Value) Value {
 	s := x.R.(*SliceV).S
 	if len(s) == 0 {
 		return mkStr("")
-	}
-	// opaque byte slice: single cell holding KOpaque atom ref
-	if len(s) == 1 && s[0].K == KOpaque {
-		if ob, ok := s[0].R.(*OpaqueBytes); ok {
-			if ob.T != nil {
-				if ob.T.Ctor == "bytes-of" {
-					return ob.T.Args[0].(Value)
-				}
-				return Value{K: KStr, R: &Rope{Segs: []Seg{{Opq: ob.T}}}}
-			}
-			return Value{K: KStr, R: &Rope{Segs: []Seg{{Atom: ob.A, Tag: ob.Tag}}}}
-		}
 	}
 	var segs []Seg
 	var cur []byte
@@ -534,10 +524,23 @@ func (in *Interp) bytesToString(x Value) Value {
 		}
 	}
 	for _, b := range s {
-		if b.R != nil {
+		switch {
+		case b.K == KOpaque:
+			flushC()
+			flushS()
+			ob, ok := b.R.(*OpaqueBytes)
+			if !ok {
+				unsupported("string of non-byte cell")
+			}
+			if ob.T != nil {
+				segs = append(segs, Seg{Opq: ob.T})
+			} else {
+				segs = append(segs, Seg{Atom: ob.A, Tag: ob.Tag})
+			}
+		case b.R != nil:
 			flushC()
 			sym = append(sym, b.R.(*smt.Term))
-		} else {
+		default:
 			flushS()
 			cur = append(cur, byte(b.N))
 		}
@@ -559,15 +562,9 @@ func (in *Interp) stringToBytes(x Value) Value {
 	for _, sg := range r.Segs {
 		switch {
 		case sg.Opq != nil:
-			if len(r.Segs) != 1 {
-				return opqBytes(ot("bytes-of", x)) // mixed rope: the whole string as one opaque byte string
-			}
-			return opqBytes(sg.Opq)
+			out = append(out, Value{K: KOpaque, R: &OpaqueBytes{T: sg.Opq}})
 		case sg.Atom != nil:
-			if len(r.Segs) != 1 {
-				return opqBytes(ot("bytes-of", x))
-			}
-			return Value{K: KSlice, R: &SliceV{S: []Value{{K: KOpaque, R: &OpaqueBytes{A: sg.Atom, Tag: sg.Tag}}}}}
+			out = append(out, Value{K: KOpaque, R: &OpaqueBytes{A: sg.Atom, Tag: sg.Tag}})
 		case sg.Sym != nil:
 			for _, t := range sg.Sym {
 				out = append(out, mkSymInt(t))
